@@ -569,6 +569,112 @@ fn sc_listget<T: BT>(env: &Env, rep: &mut Report, name: &str) {
     rep.class(format!("listget:{}", d.class()));
 }
 
+/// the same boundary through the `library!` macro: functions, closures, methods,
+/// static methods and constants over concrete types of several classes
+fn sc_library(env: &Env, rep: &mut Report, name: &str) {
+    let captured = 41u64;
+    let lib = roto::library! {
+        #[copy] type Z0 = Val<Z0>;
+        #[copy] type W4 = Val<W4>;
+        #[copy] type X16 = Val<X16>;
+        #[clone] type Hs = Val<Hs>;
+
+        fn mix(a: u8, z: Val<Z0>, s: RotoString, w: Val<W4>, o: Option<u16>, f: f32, h: Val<Hs>) -> Verdict<RotoString, u64> {
+            log(a.show()); log(z.show()); log(s.show()); log(w.show()); log(o.show()); log(f.show()); log(h.show());
+            if a % 2 == 0 { Verdict::Accept(s) } else { Verdict::Reject(w.0.0 as u64) }
+        }
+
+        let shift = move |x: Val<X16>, n: i16| -> Option<Val<X16>> {
+            log(x.show()); log(n.show());
+            if n < 0 { None } else { Some(Val(X16(x.0.0.wrapping_add(captured as u128)))) }
+        };
+
+        impl Val<W4> {
+            fn tag(r: Val<W4>, x: Option<Val<Hs>>, z: Val<Z0>, y: u64) -> Result<Val<Hs>, u64> {
+                log(r.show()); log(x.show()); log(z.show()); log(y.show());
+                match x { Some(h) => Ok(h), None => Err(y ^ r.0.0 as u64) }
+            }
+            fn make(n: u32) -> Val<W4> { Val(W4(n.rotate_left(7))) }
+        }
+
+        const KW: Val<W4> = Val(W4(0xDEAD_BEEF));
+        const KS: Option<RotoString> = Some(RotoString::new("constant"));
+        const KX: Result<Val<X16>, u8> = Ok(Val(X16(0x0102_0304_0506_0708_090a_0b0c_0d0e_0f10)));
+    };
+    let rt = match Runtime::from_lib(lib) {
+        Ok(rt) => rt,
+        Err(e) => { rep.mismatch("library! items over boundary types were refused", json!({"case": name, "error": format!("{e:?}")})); return }
+    };
+    let src = "fn f_mix(a: u8, z: Z0, s: String, w: W4, o: Option[u16], f: f32, h: Hs) -> Verdict[String, u64] { mix(a, z, s, w, o, f, h) }\n\
+               fn f_shift(x: X16, n: i16) -> Option[X16] { shift(x, n) }\n\
+               fn f_tag(r: W4, x: Option[Hs], z: Z0, y: u64) -> Result[Hs, u64] { r.tag(x, z, y) }\n\
+               fn f_make(n: u32) -> W4 { W4.make(n) }\n\
+               fn f_kw() -> W4 { KW }\nfn f_ks() -> Option[String] { KS }\nfn f_kx() -> Result[X16, u8] { KX }\n";
+    let Some(mut pkg) = compile_noctx(&rt, src, rep, name) else { return };
+    macro_rules! g { ($n:literal, $f:ty) => { match pkg.get_function::<$f>($n) { Ok(f) => f, Err(e) => {
+        rep.mismatch("get_function refused a boundary signature", json!({"case": name, "script": src, "fn": $n, "error": format!("{e:?}")})); return } } } }
+    let f_mix = g!("f_mix", fn(u8, Val<Z0>, RotoString, Val<W4>, Option<u16>, f32, Val<Hs>) -> Verdict<RotoString, u64>);
+    let f_shift = g!("f_shift", fn(Val<X16>, i16) -> Option<Val<X16>>);
+    let f_tag = g!("f_tag", fn(Val<W4>, Option<Val<Hs>>, Val<Z0>, u64) -> Result<Val<Hs>, u64>);
+    let f_make = g!("f_make", fn(u32) -> Val<W4>);
+    let f_kw = g!("f_kw", fn() -> Val<W4>);
+    let f_ks = g!("f_ks", fn() -> Option<RotoString>);
+    let f_kx = g!("f_kx", fn() -> Result<Val<X16>, u8>);
+    let mut p = Prng::for_case(env.seed, h64(name));
+    for k in 0..env.rounds {
+        let mut bad: Vec<J> = vec![];
+        let mut chk = |what: &str, want: Vec<String>, got: Vec<String>| {
+            if want != got {
+                bad.push(json!({"fn": what, "expected": want, "got": got}));
+            }
+        };
+        let (a, s, w, o, f, h) = (u8::gen_val(&mut p, k), RotoString::gen_val(&mut p, k + 1), Val::<W4>::gen_val(&mut p, k + 2),
+            Option::<u16>::gen_val(&mut p, k + 3), f32::gen_val(&mut p, k + 4), Val::<Hs>::gen_val(&mut p, k + 5));
+        let sent = vec![a.show(), "Z0".to_string(), s.show(), w.show(), o.show(), f.show(), h.show()];
+        let want_ret = if a % 2 == 0 { format!("Accept({})", s.show()) } else { format!("Reject({}u64)", w.0.0) };
+        clear_log();
+        let got = f_mix.call(a, Val(Z0), s, w, o, f, h).show();
+        let mut lg = take_log();
+        lg.push(got);
+        let mut want = sent.clone();
+        want.push(want_ret);
+        chk("mix", want, lg);
+
+        let (x, n) = (Val::<X16>::gen_val(&mut p, k), i16::gen_val(&mut p, k + 1));
+        let want_ret = if n < 0 { "None".to_string() } else { format!("Some({})", Val(X16(x.0.0.wrapping_add(41))).show()) };
+        clear_log();
+        let got = f_shift.call(x, n).show();
+        let mut lg = take_log();
+        lg.push(got);
+        chk("shift (closure)", vec![x.show(), n.show(), want_ret], lg);
+
+        let (r, xo, y) = (Val::<W4>::gen_val(&mut p, k + 1), Option::<Val<Hs>>::gen_val(&mut p, k), u64::gen_val(&mut p, k + 2));
+        let want_ret = match &xo { Some(h) => format!("Ok({})", h.show()), None => format!("Err({}u64)", y ^ r.0.0 as u64) };
+        clear_log();
+        let got = f_tag.call(r, xo.clone(), Val(Z0), y).show();
+        let mut lg = take_log();
+        lg.push(got);
+        chk("W4.tag (method)", vec![r.show(), xo.show(), "Z0".to_string(), y.show(), want_ret], lg);
+
+        let n = u32::gen_val(&mut p, k);
+        chk("W4.make (static)", vec![Val(W4(n.rotate_left(7))).show()], vec![f_make.call(n).show()]);
+        chk("KW", vec![Val(W4(0xDEAD_BEEF)).show()], vec![f_kw.call().show()]);
+        chk("KS", vec![Some(RotoString::new("constant")).show()], vec![f_ks.call().show()]);
+        chk("KX", vec![Result::<Val<X16>, u8>::Ok(Val(X16(0x0102_0304_0506_0708_090a_0b0c_0d0e_0f10))).show()], vec![f_kx.call().show()]);
+        rep.evaluations += 7;
+        if let Some(b) = bad.first() {
+            let mut input = b.clone();
+            input["case"] = json!(name);
+            input["script"] = json!(src);
+            input["round"] = json!(k);
+            rep.violation("a value crossing through library!-registered items arrived different from what was sent",
+                &format!("value-changed:library:{}", b["fn"].as_str().unwrap_or("").split(' ').next().unwrap_or("")), input);
+            return;
+        }
+    }
+    rep.class("library-macro");
+}
+
 // context structs through `#[derive(Context)]` (the `offset_of!` table of macros/src/lib.rs),
 // the same fields in three declaration orders / representations
 macro_rules! derived_ctx {
@@ -650,6 +756,7 @@ fn cases() -> Vec<Case> {
     macro_rules! lists { ($($t:ty);* $(;)?) => { $( cases.push(case::<$t>("listget", sc_listget::<$t>)); )* } }
     leaf_types!(lists);
     cases.push(Case { name: "narrow ints".into(), run: sc_narrow });
+    cases.push(Case { name: "library macro".into(), run: sc_library });
     cases.push(Case { name: "ctxderive declared".into(), run: sc_dctx1 });
     cases.push(Case { name: "ctxderive reversed".into(), run: sc_dctx2 });
     cases.push(Case { name: "ctxderive repr-C".into(), run: sc_dctx3 });
